@@ -3,6 +3,7 @@
 From Coq Require Import List NArith Bool.
 From RPFT Require Import Base.Sexp Base.PyStr Gen.Tables Cell.Cell Cell.CellFacts.
 Import ListNotations.
+Local Open Scope N_scope.
 
 (* 1. every string survives join + split, trimmed.
    str_ok s = "s does not contain the temporary character of cleanse, IF cleanse has one"
